@@ -1,6 +1,10 @@
 package client
 
 import (
+	"crypto/rand"
+	"math"
+	"math/big"
+
 	"github.com/jcmturner/gokrb5/v8/crypto"
 	"github.com/jcmturner/gokrb5/v8/crypto/etype"
 	"github.com/jcmturner/gokrb5/v8/iana/errorcode"
@@ -41,6 +45,10 @@ func (cl *Client) ASExchange(realm string, ASReq messages.ASReq, referral int) (
 					// the client cannot act on the KDC's error: the caller gets that error
 					return messages.ASRep{}, krberror.Errorf(e, krberror.KDCError, "AS Exchange Error: kerberos error response from KDC; failed setting AS_REQ PAData for pre-authentication required: %v", err)
 				}
+				// A new request gets a new nonce: the reply to the first request must not pass for the reply to this one
+				if err = newNonce(&ASReq); err != nil {
+					return messages.ASRep{}, krberror.Errorf(err, krberror.EncryptingError, "AS Exchange Error: failed generating a nonce for the AS_REQ with PAData")
+				}
 				b, err := ASReq.Marshal()
 				if err != nil {
 					return messages.ASRep{}, krberror.Errorf(err, krberror.EncodingError, "AS Exchange Error: failed marshaling AS_REQ with PAData")
@@ -58,6 +66,9 @@ func (cl *Client) ASExchange(realm string, ASReq messages.ASReq, referral int) (
 					return messages.ASRep{}, krberror.Errorf(err, krberror.KRBMsgError, "maximum number of client referrals exceeded")
 				}
 				referral++
+				if err = newNonce(&ASReq); err != nil {
+					return messages.ASRep{}, krberror.Errorf(err, krberror.EncryptingError, "AS Exchange Error: failed generating a nonce for the referred AS_REQ")
+				}
 				rep, rerr := cl.ASExchange(e.CRealm, ASReq, referral)
 				if rerr != nil {
 					return rep, krberror.Errorf(e, krberror.KDCError, "AS Exchange Error: kerberos error response from KDC; following the client referral failed: %v", rerr)
@@ -106,6 +117,16 @@ func (cl *Client) preAuthETypeFromConfig() int32 {
 		return int32(cl.Config.LibDefaults.PreferredPreauthTypes[0])
 	}
 	return 0
+}
+
+// newNonce gives the AS_REQ a fresh random nonce.
+func newNonce(ASReq *messages.ASReq) error {
+	nonce, err := rand.Int(rand.Reader, big.NewInt(math.MaxInt32))
+	if err != nil {
+		return err
+	}
+	ASReq.ReqBody.Nonce = int(nonce.Int64())
+	return nil
 }
 
 // setPAData adds pre-authentication data to the AS_REQ.
